@@ -222,7 +222,7 @@ pub fn run(ctx: &Ctx) -> Outcome {
         }
         return out;
     }
-    let depth = ctx.tier.pick(4, 5);
+    let depth = ctx.tier.pick(5, 6);
     let (st, v) = bfs::bfs_replay(Sys::new, depth, 3_000_000);
     bfs::record(&mut out, &json!({"part": "bc"}), &st, &v);
     let (n, capped, v2) = bfs::dfs_all(Sys::new, ctx.tier.pick(2, 3), 2_000_000);
